@@ -28,6 +28,9 @@ pub enum Edit {
     /// file/symlink -> directory with one file in it; directory -> file.
     SwapKind { idx: u16, pool: u8, len: u32 },
     Retarget { idx: u16, target: String },
+    /// Change content keeping the length, the new mtime being the old one plus `dns`
+    /// nanoseconds: a rewrite that lands in the same second, or a nanosecond later.
+    Nudge { idx: u16, pool: u8, dns: u32 },
 }
 
 #[derive(Debug, Clone, Serialize, Deserialize)]
@@ -91,6 +94,18 @@ pub fn apply_edit(t: &mut Tree, e: &Edit) {
                 let (s, ns) = next_mtime((n.meta.mtime_s, n.meta.mtime_ns), (*mtime_s, *mtime_ns));
                 n.meta.mtime_s = s;
                 n.meta.mtime_ns = ns;
+            }
+        }
+        Edit::Nudge { idx, pool, dns } => {
+            let files: Vec<String> = non_root.iter().filter(|p| t.0[*p].is_file()).cloned().collect();
+            if let Some(p) = pick(&files, *idx) {
+                let n = t.0.get_mut(p).unwrap();
+                if let Kind::File { pool: op, .. } = &mut n.kind {
+                    *op = if *pool == *op { (*pool + 1) % 8 } else { *pool };
+                }
+                let total = n.meta.mtime_ns as u64 + (*dns).max(1) as u64;
+                n.meta.mtime_s += (total / 1_000_000_000) as i64;
+                n.meta.mtime_ns = (total % 1_000_000_000) as u32;
             }
         }
         Edit::Touch { idx, mtime_s, mtime_ns } => {
@@ -205,6 +220,8 @@ pub fn edit_strategy(cfg: TreeCfg) -> BoxedStrategy<Edit> {
             .prop_map(|(idx, pool, dlen, (mtime_s, mtime_ns))| Edit::Modify { idx, pool, dlen, mtime_s, mtime_ns }),
         2 => (idx, tree::mtime_strategy(cfg))
             .prop_map(|(idx, (mtime_s, mtime_ns))| Edit::Touch { idx, mtime_s, mtime_ns }),
+        2 => (idx, 0u8..8, prop_oneof![2 => Just(1u32), 2 => 1u32..1000, 3 => 1000u32..999_999_999, 1 => Just(1_000_000_000u32)])
+            .prop_map(|(idx, pool, dns)| Edit::Nudge { idx, pool, dns }),
         3 => idx.prop_map(|idx| Edit::Remove { idx }),
         2 => (idx, name).prop_map(|(idx, name)| Edit::Rename { idx, name }),
         1 => (idx, tree::mode_strategy(cfg, false)).prop_map(|(idx, mode)| Edit::Chmod { idx, mode }),
@@ -232,7 +249,8 @@ pub fn op_strategy(cfg: HistCfg) -> BoxedStrategy<Op> {
     if cfg.interrupts {
         choices.push((
             2,
-            (tree::opts_strategy(), 0u16..40, prop::bool::weighted(0.3))
+            // early stops (band directory without a head, head without hunks) as often as late ones
+            (tree::opts_strategy(), prop_oneof![1 => 0u16..4, 3 => 0u16..40], prop::bool::weighted(0.3))
                 .prop_map(|(opts, k, torn)| Op::BackupInterrupted { opts, k, torn })
                 .boxed(),
         ));
@@ -456,6 +474,18 @@ impl World {
             new_band,
             opts,
         }
+    }
+
+    /// A backup killed just before it writes its BANDHEAD (`torn`: leaving a zero-length
+    /// one): the band directory exists but holds no readable head.
+    pub fn backup_killed_at_head(&mut self, opts: Opts, torn: bool) -> StepKind {
+        let next = self.band_ids_on_disk().last().map_or(0, |m| m + 1);
+        let key = crate::hooks::Key {
+            verb: crate::hooks::V::Write,
+            path: format!("{}/BANDHEAD", format::band_dirname(next)),
+            occ: 0,
+        };
+        self.do_backup(opts, Plan::FreezeAtKey { key, torn })
     }
 
     fn do_delete(&mut self, requested: Vec<u32>, dry_run: bool) -> StepKind {
